@@ -1,3 +1,3 @@
 From Coq Require Import ExtrOcamlBasic.
 From Draco Require Import Base.DriverSupport Model.Edgebreaker.
-Extraction "m.ml" ds_api eb_core eb_full bits_of_list tabulate.
+Extraction "m.ml" ds_api eb_core eb_full bits_of_list tabulate assign_points_seam init_st.
